@@ -20,16 +20,63 @@ func init() {
 }
 
 func errTestOf(call ssa.Value) func(cond ssa.Value) bool {
+	isErrOf := func(x ssa.Value) bool {
+		ex, ok := x.(*ssa.Extract)
+		return ok && ex.Tuple == call && ex.Index == ex.Tuple.Type().(interface{ Len() int }).Len()-1
+	}
 	return func(cond ssa.Value) bool {
 		b, ok := cond.(*ssa.BinOp)
 		if !ok || b.Op != token.NEQ || !isNilConst(b.Y) {
 			return false
 		}
-		return derivesFrom(b.X, func(x ssa.Value) bool {
-			ex, ok := x.(*ssa.Extract)
-			return ok && ex.Tuple == call && ex.Index == ex.Tuple.Type().(interface{ Len() int }).Len()-1
-		})
+		// a named/captured error variable lives in a cell that every later call overwrites: the test is a test of THIS
+		// call's error only if every store that reaches the load is this call's error result (flow-sensitive).
+		if ld, ok := b.X.(*ssa.UnOp); ok && ld.Op == token.MUL {
+			if cell, ok := ld.X.(*ssa.Alloc); ok {
+				stores := reachingStores(ld, cell)
+				if len(stores) == 0 {
+					return false
+				}
+				for _, st := range stores {
+					if !isErrOf(st.Val) {
+						return false
+					}
+				}
+				return true
+			}
+		}
+		return derivesFrom(b.X, isErrOf)
 	}
+}
+
+// reachingStores: the stores to the local cell that can be the last one before the load (backward search over the CFG).
+func reachingStores(ld ssa.Instruction, cell *ssa.Alloc) []*ssa.Store {
+	var out []*ssa.Store
+	seen := map[*ssa.BasicBlock]bool{}
+	var scan func(b *ssa.BasicBlock, from int)
+	scan = func(b *ssa.BasicBlock, from int) {
+		for i := from; i >= 0; i-- {
+			if st, ok := b.Instrs[i].(*ssa.Store); ok && st.Addr == ssa.Value(cell) {
+				out = append(out, st)
+				return
+			}
+		}
+		for _, p := range b.Preds {
+			if !seen[p] {
+				seen[p] = true
+				scan(p, len(p.Instrs)-1)
+			}
+		}
+	}
+	blk := ld.Block()
+	idx := -1
+	for i, in := range blk.Instrs {
+		if in == ld {
+			idx = i
+		}
+	}
+	scan(blk, idx-1)
+	return out
 }
 
 // C19.R1 validation dominates every start.
@@ -159,7 +206,11 @@ func c19R2(c *Ctx) {
 					return false
 				})
 			}
-			c.verdict(fromSer && fromUnser, rule, key, c.instrPos(mu), "data model input = Serialize(Unserialize(caller input))",
+			onlySer := serCall != nil && allSources(mu.Value, func(x ssa.Value) bool {
+				ex, ok := x.(*ssa.Extract)
+				return ok && ex.Tuple == ssa.Value(serCall) && ex.Index == 0
+			})
+			c.verdict(fromSer && fromUnser && onlySer, rule, key, c.instrPos(mu), "data model input = Serialize(Unserialize(caller input)) on every path",
 				"the data model's `input` is not the schema-normalised input (typed values, defaults filled in): steps would observe the raw input")
 		})
 	}
